@@ -7,7 +7,7 @@ READY = True
 META = {
     "technique": "Lean 4 proof (slice model = CPython PySlice_AdjustIndices for all lists/bounds/steps) + exhaustive correspondence on the quantifier's box",
     "category": "proof",
-    "text": "Kernel-checked theorems: the Lean model of ops::slice (with every checked arithmetic operation modelled as a possible panic) returns exactly CPython's selection for every list shorter than 2^63 and every start/stop/step in i64, a zero step is the only error, no panic; subscripts likewise. Value level (MJ.Sub): for strings in all three representations (UTF-8 bytes; the Chars cursor provably stands on character boundaries and yields the scalar values; the result of a slice is, byte for byte, the concatenation of the whole byte ranges of the characters Python selects, for negative steps too, combining marks and 4-byte characters included), bytes, tuples, sequences, sized/unsized/one-shot iterables and slice parts / subscripts that are Python integers of any representation and size (bool, i64, u64, i128, u128; beyond i64 clamped by slice_bound), ops::slice / get_item_opt return Python's selection of the same type; slice is total (error iff a part does not convert, in start/stop/step order, or the step is zero, or the value has no sliceable representation), never panics; integral floats act as integers, everything else is the documented conversion error / undefined; VM arms GetItem/GetAttr/Slice under the four undefined modes. Representation is not an input: at every conversion site of the regenerated site table (the three slice parts, get_item_opt::index, every get_value that takes a position, the repetition count, the integer-typed arguments of range / batch / slice / indent / round / split / truncate / wordwrap / randrange / lipsum) two numbers holding the same integer convert alike whatever their ValueRepr (I64, U64, I128, U128, integral F64), booleans convert like 0 / 1, and everything that holds no integer is rejected uniformly. Every object kind the engine registers (regenerated list of impl Object blocks, ObjectRepr and Enumerator variants): Seq / Iterable objects are the model's seq / tuple / sized / unsized / one-shot classes; repetitions (seq * n, also nested: Python's xs * n with an honest length), reversed views (Python's reversed(x) = x[::-1] item by item), one-shot iterators used more than once (what each subscript / slice enumeration yields and leaves; nothing is yielded twice), chained sequences; maps and plain objects are not sliceable (the cannot-be-sliced error) and subscripted by key. Every dispatch/arm/message table the model interprets is regenerated from /repo. The model is tied to /repo by running model, CPython-transcription and the real engine on the whole box of the property's quantifier (exhaustive), the value-kind x key-kind product through 12 entry points and 4 undefined modes (value kinds: every string / bytes / ObjectRepr / Enumerator flavour incl. std sets and lists, repetitions, reversed views, custom objects per Enumerator variant), 140 derived built-in values with Python's own expectation of their items, relations (reverse/first/last/length) on every value, bounds produced inside templates by 40 expressions, one-shot iterators driven through op sequences, sequences of 2^16 and 10^5 items, long random sequences, metamorphic relations, and the conversion-site stream (every site x every representation), plus CPython itself as an independent witness for the spec. Session 4: objects are modelled by Enumerator variant (MJ.Sub.Obj: repr, the variant enumerate() returns with what it yields and its size hints, get_value by position); try_iter / query_len arms, the length the Seq arm of get_item_opt offers to index and the data flow of the lazy object arm of ops::slice are the regenerated table C09_ENUMERATOR_ARMS; objSliceV_eq_python (C09_objects_full) and objGetItem_pyInt: an object of representation Seq or Iterable that holds the items xs - through ANY enumerable variant (Empty, Seq, Iter, RevIter, KeyValueIter, RevKeyValueIter, Str, Values), whether it announces its length (exact size hints, Seq(l)) or not - gives Python's xs[A:B:C] / xs[i] for all parts that are omitted or integers of any representation and size, end-relative subscripts of objects that announce no length included (fix dad5284); harnessObj_holds: the 15 enumerable object flavours of the correspondence stream `eo` satisfy the hypothesis; C09_main: an engine whose four operations (slice / get_item_opt on values and on objects) equal the model's (hypotheses corr_slice, corr_getItem, corr_objSlice, corr_objGetItem = what the correspondence streams validate) satisfies the property as stated (C09_statement). Stream eo: 16 flavours (9 variants x exact / too-large-upper / lower-only / absent size hints) x Seq / Iterable x n 0..4 x the complete box start, stop in {omitted} U [-5, 5], step in {omitted, -2, -1, 1, 2, 3, 0} + 36 subscript keys each, engine vs compiled model vs Python, every lazy result enumerated twice and its announced length compared with its items, expression vs Value::get_item; the same complete box for 12 of the engine's own sequence-like value kinds (VecDeque, arrays, BTreeSet, LinkedList, HashSet of 0 / 1 items, custom Seq / Iterable objects, range, repetitions and nested repetitions, reversed views of a list and of an iterable of unknown length) x n 0..4, engine vs the MJ.Sub.Val model vs Python on what the value enumerates.",
+    "text": "Kernel-checked theorems: the Lean model of ops::slice (with every checked arithmetic operation modelled as a possible panic) returns exactly CPython's selection for every list shorter than 2^63 and every start/stop/step in i64, a zero step is the only error, no panic; subscripts likewise. Value level (MJ.Sub): for strings in all three representations (UTF-8 bytes; the Chars cursor provably stands on character boundaries and yields the scalar values; the result of a slice is, byte for byte, the concatenation of the whole byte ranges of the characters Python selects, for negative steps too, combining marks and 4-byte characters included), bytes, tuples, sequences, sized/unsized/one-shot iterables and slice parts / subscripts that are Python integers of any representation and size (bool, i64, u64, i128, u128; beyond i64 clamped by slice_bound), ops::slice / get_item_opt return Python's selection of the same type; slice is total (error iff a part does not convert, in start/stop/step order, or the step is zero, or the value has no sliceable representation), never panics; integral floats act as integers, everything else is the documented conversion error / undefined; VM arms GetItem/GetAttr/Slice under the four undefined modes. Representation is not an input: at every conversion site of the regenerated site table (the three slice parts, get_item_opt::index, every get_value that takes a position, the repetition count, the integer-typed arguments of range / batch / slice / indent / round / split / truncate / wordwrap / randrange / lipsum) two numbers holding the same integer convert alike whatever their ValueRepr (I64, U64, I128, U128, integral F64), booleans convert like 0 / 1, and everything that holds no integer is rejected uniformly. Every object kind the engine registers (regenerated list of impl Object blocks, ObjectRepr and Enumerator variants): Seq / Iterable objects are the model's seq / tuple / sized / unsized / one-shot classes; repetitions (seq * n, also nested: Python's xs * n with an honest length), reversed views (Python's reversed(x) = x[::-1] item by item), one-shot iterators used more than once (what each subscript / slice enumeration yields and leaves; nothing is yielded twice), chained sequences; maps and plain objects are not sliceable (the cannot-be-sliced error) and subscripted by key. Every dispatch/arm/message table the model interprets is regenerated from /repo. The model is tied to /repo by running model, CPython-transcription and the real engine on the whole box of the property's quantifier (exhaustive), the value-kind x key-kind product through 12 entry points and 4 undefined modes (value kinds: every string / bytes / ObjectRepr / Enumerator flavour incl. std sets and lists, repetitions, reversed views, custom objects per Enumerator variant), 140 derived built-in values with Python's own expectation of their items, relations (reverse/first/last/length) on every value, bounds produced inside templates by 48 expressions (8 of them containing subscripts, slices and map-literal colons of their own), one-shot iterators driven through op sequences, sequences of 2^16 and 10^5 items, long random sequences, metamorphic relations, and the conversion-site stream (every site x every representation), plus CPython itself as an independent witness for the spec. Session 4: objects are modelled by Enumerator variant (MJ.Sub.Obj: repr, the variant enumerate() returns with what it yields and its size hints, get_value by position); try_iter / query_len arms, the length the Seq arm of get_item_opt offers to index and the data flow of the lazy object arm of ops::slice are the regenerated table C09_ENUMERATOR_ARMS; objSliceV_eq_python (C09_objects_full) and objGetItem_pyInt: an object of representation Seq or Iterable that holds the items xs - through ANY enumerable variant (Empty, Seq, Iter, RevIter, KeyValueIter, RevKeyValueIter, Str, Values), whether it announces its length (exact size hints, Seq(l)) or not - gives Python's xs[A:B:C] / xs[i] for all parts that are omitted or integers of any representation and size, end-relative subscripts of objects that announce no length included (fix dad5284); harnessObj_holds: the 15 enumerable object flavours of the correspondence stream `eo` satisfy the hypothesis; C09_main: an engine whose four operations (slice / get_item_opt on values and on objects) equal the model's (hypotheses corr_slice, corr_getItem, corr_objSlice, corr_objGetItem = what the correspondence streams validate) satisfies the property as stated (C09_statement). Stream eo: 16 flavours (9 variants x exact / too-large-upper / lower-only / absent size hints) x Seq / Iterable x n 0..4 x the complete box start, stop in {omitted} U [-5, 5], step in {omitted, -2, -1, 1, 2, 3, 0} + 36 subscript keys each, engine vs compiled model vs Python, every lazy result enumerated twice and its announced length compared with its items, expression vs Value::get_item; the same complete box for 12 of the engine's own sequence-like value kinds (VecDeque, arrays, BTreeSet, LinkedList, HashSet of 0 / 1 items, custom Seq / Iterable objects, range, repetitions and nested repetitions, reversed views of a list and of an iterable of unknown length) x n 0..4, engine vs the MJ.Sub.Val model vs Python on what the value enumerates.",
     "design_ref": "DESIGN.md §3 C09",
     "level_note": "Trusted: Lean kernel; hand transcription of ops.rs slice/slice_bound/get_offset_and_len/range_step_backwards, value/mod.rs get_item_opt(+index)/get_item/get_item_by_index/get_attr and the VM arms GetItem/GetAttr/Slice into MJ/Model/{Slice,Subscript}.lean; every dispatch table, conversion arm list, error kind/message, length function and the handle_undefined table the model interprets is regenerated from /repo (lib/tables/c09.py) with shape checks. Validated exhaustively on the box (10 kinds x len 0..6 x 23 starts x 23 stops x 13 steps) and on the value-kind x key-kind product through 12 entry points x 4 undefined modes; long random sequences (len <= 2000, bounds near +-len, +-2^31, +-2^63, +-2^64, +-2^127) against the model and CPython. Round 5: the models of repeat_iterable / Repeated, Value::reverse, the one-shot iterator state machine and the conversion functions are hand transcriptions as well (MJ/Model/SubKinds.lean), tied by the regenerated tables C09_CONVERSION_SITES / C09_REPEATED / C09_OBJECT_IMPLS / C09_REVERSE (shape-checked) and by the streams mr / dr / pb / os / huge / cv; only validated (oracle streams, no model): GroupTuple, the built-in filters that produce the derived values (their items are compared with Python's expectation), sizedness of lazy results over iterators with inexact size hints, sequences longer than 10^5. MOVED FROM VALIDATED TO PROVED in session 4 (the session-3 work was lost, see the preamble of lib/prompts/worker_C09_s4.txt): custom objects per Enumerator variant were validated through the `.seq` / `.iter` classes only (the model did not know enumerators); now MJ/Model/SubObj.lean models try_iter / query_len / enumerator_len / the Seq and Iterable arms of get_item_opt / the lazy object arm of ops::slice per variant over the regenerated table C09_ENUMERATOR_ARMS (shape-checked arm by arm: an edit of an arm of try_iter, query_len, of the Seq arm of get_item_opt or of the collect / stand-in branches of ops::slice breaks the tie and the theorems enumerator_arms_known / holds_tryIter / holds_queryLen), with theorems for ALL objects that hold their items (Holds o xs: the hypothesis is explicit and decidable per harness object) and the stream eo executing the new model part against the engine. Still hand transcription: objSliceItems / objGetItem themselves (tied by the shape checks of C09_ENUMERATOR_ARMS + eo). Still only validated: whether the lazy result of a slice announces a length (the hint arithmetic of skip / take / step_by is std's; eo checks that an announced length is the number of items), Enumerator::Seq(l) over an object whose get_value does not answer every position < l (undefined items; outside Holds), objects that are ObjectRepr::Map with a key-value enumerator (keys, not pairs; maps are not sliceable), a one-shot object behind ObjectRepr::Seq. The gap between proofs and code is now explicit: the four hypotheses of C09_main.",
 }
@@ -474,6 +474,8 @@ BOUND_PY = {
     "min1": 1, "sum2": 2, "count3": 3, "first2": 2, "nsattr": 2, "negvar": -2, "varu": 2, "var128": 3, "varu128": 1, "cond": 2,
     # floats with an integral value act as that integer (engine rule; Python: TypeError)
     "float2": 2, "floatneg1": -1, "sumf": 2, "divf": 2,
+    # bounds that contain subscripts, slices and colons of their own
+    "mapsub": 2, "mapint": 2, "listsub": 2, "negsub": -2, "slicesub": 2, "slicelen": 2, "ternslice": 3, "callsub": 2,
 }
 BOUND_FLOAT = {"float2", "floatneg1", "sumf", "divf"}
 PB_OBJ = {"list": [0, 1, 2, 3, 4], "listv": [0, 1, 2, 3, 4], "tuple": (0, 1, 2, 3, 4), "str": "aé€𝄞b", "strv": "aé€𝄞b",
@@ -943,7 +945,7 @@ def run(r):
               "round 5: + 34 value specs for every other sequence-like object kind (std sets / linked lists, repetitions, reversed "
               "views, one custom object per Enumerator variant under ObjectRepr::Seq and ::Iterable, loose size hints); 140 derived "
               "values x 33 keys x 6 entries and x 600 slices, their items compared with Python's own expectation; relations "
-              "reverse / first / last / length on every value; bounds produced by 40 template expressions (all singles x 8 kinds, "
+              "reverse / first / last / length on every value; bounds produced by 48 template expressions (all singles x 8 kinds, "
               "4000 random triples); 6000 op sequences on one one-shot iterator; lengths 65535..100000 x 8 kinds x 15 slices; every "
               "conversion site of the regenerated table x 36 keys (each small integer in all its representations); "
               "session 4: + stream eo = 16 object flavours (every Enumerator variant x size-hint honesty) x ObjectRepr::Seq / ::Iterable x n 0..4 x "
